@@ -128,6 +128,10 @@ def facts(src=None):
         isinstance(c.args[2], ast.Name) and c.args[2].id == "ts_variables"
     F.append(("ts.run_loop", "each-step-once-in-order" if ok else "other"))
     F.append(("ts.run_time_step_origin", origin(c.func, imp)))
+    kwn = g.args.kwarg.arg if g.args.kwarg else None
+    F.append(("ts.run_loop_forwards_kwargs", "forwards-kwargs" if kwn and any(
+        kw.arg is None and isinstance(kw.value, ast.Name) and kw.value.id == kwn for kw in c.keywords)
+        else "does-not-forward"))
     if any(isinstance(n, (ast.Break, ast.Continue, ast.Return, ast.Try)) for n in ast.walk(lp)):
         raise WiringError("run_loop: break/continue/return/try inside the loop")
     # run_timeseries: init_time_series then run_loop
@@ -173,6 +177,32 @@ def facts(src=None):
                         v.args[1].value.id == "ctrl_variables_net" and v.args[1].slice.value == key:
                     ok = True
         F.append(("multinet.ctrl.%s_default_from_net_type" % key, "yes" if ok else "no"))
+    # the caller's solver options (**kwargs) reach every calculation: initial run, recalculation after the controllers
+    def forwards(fname, callee_suffixes):
+        g = func(t, fname, rel)
+        if g.args.kwarg is None:
+            return "no-kwargs"
+        kwn = g.args.kwarg.arg
+        def oname(f):
+            try:
+                return origin(f, imp)
+            except WiringError:
+                return ""
+        calls = [n for n in ast.walk(g) if isinstance(n, ast.Call) and any(
+            oname(n.func).endswith(sfx) for sfx in callee_suffixes)]
+        if not calls:
+            return "callee-not-found"
+        ok = all(any(kw.arg is None and isinstance(kw.value, ast.Name) and kw.value.id == kwn for kw in c.keywords)
+                 for c in calls)
+        # the kwargs name must not be rebound to something else before
+        rebound = any(isinstance(n, ast.Assign) and any(isinstance(x, ast.Name) and x.id == kwn for x in n.targets)
+                      for n in ast.walk(g))
+        return "forwards-kwargs" if ok and not rebound else "does-not-forward"
+    F.append(("multinet.ctrl.evaluate_forwards_kwargs", forwards("_evaluate_multinet", ["_evaluate_net"])))
+    F.append(("multinet.ctrl.initialization_forwards_kwargs",
+              forwards("net_initialization_multinet", ["net_initialization"])))
+    F.append(("multinet.ctrl.run_control_forwards_kwargs",
+              forwards("run_control", ["control_implementation", "net_initialization_multinet"])))
     # _relevant_nets: every net named by a multinet controller of the level is recalculated
     g = func(t, "_relevant_nets", rel)
     shape = "other"
